@@ -32,6 +32,7 @@ type NodeConf struct {
 	SkipLabel bool   `json:",omitempty"`
 
 	Keys        [][]byte `json:",omitempty"` // Keys[0] is the primary
+	EmptyKeyring bool    `json:",omitempty"` // a keyring without keys (encryption starts when a key is installed at run time)
 	NoVerifyIn  bool     `json:",omitempty"`
 	NoVerifyOut bool     `json:",omitempty"`
 	NoCompress  bool     `json:",omitempty"`
@@ -115,6 +116,13 @@ func (c NodeConf) Build(ep *simnet.Endpoint, rec *Recorder, logw io.Writer) (*me
 	conf.SkipInboundLabelCheck = c.SkipLabel
 	if len(c.Keys) > 0 {
 		kr, err := memberlist.NewKeyring(c.Keys, c.Keys[0])
+		if err != nil {
+			return nil, err
+		}
+		conf.Keyring = kr
+	}
+	if len(c.Keys) == 0 && c.EmptyKeyring {
+		kr, err := memberlist.NewKeyring(nil, nil)
 		if err != nil {
 			return nil, err
 		}
